@@ -760,11 +760,12 @@ pub fn key_query_id(p: &Program, k: u32) -> qbice::query::QueryID {
 /// `dirty` = every key c such that the edge (k,c) is in the dirty set (recorded forward edge or not); `back` = callers.
 /// A QueryID that is not a key of the program prints as `?`.
 #[cfg(qbice_verif)]
-pub async fn state_digest<C: Config>(engine: &Arc<Engine<C>>, p: &Program) -> String { state_digest_opts(engine, p, true).await }
+pub async fn state_digest<C: Config>(engine: &Arc<Engine<C>>, p: &Program) -> String { state_digest_opts(engine, p, true, 1).await }
 
-/// `all_pairs_dirty = false` (programs with hundreds of keys): `dirty` lists the dirty RECORDED forward edges only
+/// `all_pairs_dirty = false` (programs with hundreds of keys): `dirty` lists the dirty RECORDED forward edges only;
+/// `stride > 1`: only the keys 0..4 and every `stride`-th key are dumped (their set-valued fields are complete)
 #[cfg(qbice_verif)]
-pub async fn state_digest_opts<C: Config>(engine: &Arc<Engine<C>>, p: &Program, all_pairs_dirty: bool) -> String {
+pub async fn state_digest_opts<C: Config>(engine: &Arc<Engine<C>>, p: &Program, all_pairs_dirty: bool, stride: u32) -> String {
     use qbice::verif::{DumpDependency, dump_node, current_timestamp, is_edge_dirty, stored_value};
     let n = p.nodes.len() as u32;
     let ids: Vec<qbice::query::QueryID> = (0..n).map(|k| key_query_id(p, k)).collect();
@@ -777,7 +778,7 @@ pub async fn state_digest_opts<C: Config>(engine: &Arc<Engine<C>>, p: &Program, 
         ks.into_iter().map(|x| x.1).collect::<Vec<_>>().join(",") };
     let now = current_timestamp(engine);
     let mut dumps = vec![];
-    for k in 0..n { dumps.push(dump_node(engine, &ids[k as usize]).await); }
+    for k in 0..n { dumps.push(if stride <= 1 || k < 4 || k % stride == 0 { dump_node(engine, &ids[k as usize]).await } else { None }); }
     let mut parts = vec![];
     for k in 0..n {
         let Some(d) = &dumps[k as usize] else { continue };
@@ -798,7 +799,8 @@ pub async fn state_digest_opts<C: Config>(engine: &Arc<Engine<C>>, p: &Program, 
                 let mut v: Vec<(u32, String)> = vec![];
                 for o in os {
                     let ck = rev.get(&o.callee).copied();
-                    let cd = ck.and_then(|c| dumps[c as usize].as_ref());
+                    let fetched = match ck { Some(c) if stride > 1 && dumps[c as usize].is_none() => dump_node(engine, &o.callee).await, _ => None };
+                    let cd = fetched.as_ref().or_else(|| ck.and_then(|c| dumps[c as usize].as_ref()));
                     let mut s = name(&o.callee);
                     if cd.and_then(|c| c.value_fingerprint) != Some(o.seen_value_fingerprint) { s.push('!'); }
                     if cd.and_then(|c| c.transitive_firewall_callees_fingerprint) != Some(o.seen_transitive_firewall_callees_fingerprint) { s.push('^'); }
